@@ -4,7 +4,7 @@ patch=$1; tier=$2; shift 2
 cd /repo || exit 9
 if [ -n "$(git status --porcelain)" ]; then echo "/repo not clean"; exit 9; fi
 git apply "$patch" || { echo "patch does not apply"; exit 9; }
-trap 'git -C /repo checkout -- . ' EXIT
+trap 'git -C /repo checkout -- . ; (cd /verif && python3 harness/translate.py >/dev/null 2>&1)' EXIT
 cd /verif
 for pid in "$@"; do
   start=$(date +%s)
